@@ -512,6 +512,15 @@ func (in *Interp) CallFunction(fn *ssa.Function, args, bindings []*Term, m *Mem,
 	if len(fr.rets) == 0 {
 		return nil, nil, fr
 	}
+	// gate the join on the simplest return conditions: the alternative with the most complex condition becomes
+	// the innermost "else", whose own condition a gated join does not record
+	sort.SliceStable(fr.rets, func(i, j int) bool {
+		gi, gj := fr.rets[i].guard, fr.rets[j].guard
+		if gi == nil || gj == nil {
+			return false
+		}
+		return len(gi.Key()) < len(gj.Key())
+	})
 	res := fr.rets[len(fr.rets)-1].val
 	out := fr.rets[len(fr.rets)-1].mem
 	if len(fr.rets) > 1 {
